@@ -2,8 +2,11 @@
    Operator level (all values, all accepted overloads of the enumeration): the result of every modelled
    element-wise operator lies in the value family of the declared return type (operator_results_inhabit_their_family
    + declared_return_types_are_the_result_families, the latter decided in the kernel over the REGENERATED
-   catalogue).  PARTIAL: the induction over whole expressions (dtype_of env e = TOk t -> the value of e lies in
-   the family of t) is not stated; mixed Int / Float operands of the polymorphic operators are outside the claim.  The oracle (props/c12.py) compares the static
+   catalogue).  EXPRESSION LEVEL (expression_values_inhabit_the_family_of_their_static_type): for every
+   element-wise expression over columns, literals, casts and modelled operators whose applications lie in the
+   enumeration and carry a family claim, if dtype_of gives t then the value lies in the family of t, for all rows.
+   PARTIAL: case expressions, window / aggregate functions and mixed Int / Float operands of the polymorphic
+   operators are outside the claim.  The oracle (props/c12.py) compares the static
    type of every exported column with the exported Polars dtype on both backends, and re-imports. *)
 From Coq Require Import List String NArith ZArith Bool.
 From PDT Require Import Model.Dtype Model.Conv Model.Value Model.Ops Model.Expr Model.Typing Proofs.TypeLemmas
@@ -71,3 +74,23 @@ Print Assumptions typed_operator_application_is_sound.
 Example family_claims_are_made : N.ltb 20000 claim_count = true /\ ret_fam PDTGen.Catalogue.Op_truediv [FInt; FInt] = Some FFloat
   /\ ret_fam PDTGen.Catalogue.Op_fill_null [FInt; FFloat] = None.
 Proof. split; [exact claims_exist|]. split; reflexivity. Qed.
+
+(* EXPRESSION LEVEL: type soundness (at the granularity of value families) of the transcribed dtype() for element-wise
+   expressions: tsound is the decidable side condition (no case expression; operators of the modelled set; every
+   application's argument types in the enumeration, with a family claim) *)
+Theorem expression_values_inhabit_the_family_of_their_static_type : forall e env t ctx i r,
+  tsound env e = true -> dtype_of env e = TOk t ->
+  (forall u ci, env_get env u = Some ci -> in_fam (get r u) (fam_of (c_dtype ci)) = true) ->
+  in_fam (eval ctx (i, r) e) (fam_of t) = true.
+Proof. exact expr_family_soundness_proof. Qed.
+Print Assumptions expression_values_inhabit_the_family_of_their_static_type.
+
+Example tsound_example :
+  let env := [(1%N, {| c_name := "a"; c_dtype := TS SInt64; c_ftype := ElementWise |});
+              (2%N, {| c_name := "f"; c_dtype := TS SFloat64; c_ftype := ElementWise |});
+              (3%N, {| c_name := "s"; c_dtype := TStr None; c_ftype := ElementWise |})] in
+  let e := EFn PDTGen.Catalogue.Op_bool_and
+             [EFn PDTGen.Catalogue.Op_greater_than [EFn PDTGen.Catalogue.Op_truediv [EFn PDTGen.Catalogue.Op_add [ECol 1%N; ELit (VInt 1)] false [] []; ECol 2%N] false [] []; ELit (VFloat PrimFloat.one)] false [] [];
+              EFn PDTGen.Catalogue.Op_str_starts_with [EFn PDTGen.Catalogue.Op_str_upper [ECol 3%N] false [] []; ELit (VStr "A")] false [] []] false [] [] in
+  tsound env e = true /\ dtype_of env e = TOk (TS SBool).
+Proof. vm_compute. split; reflexivity. Qed.
